@@ -523,3 +523,55 @@ def rule_prefix_boundary(ctx, r5):
                 r6.ok(key, loc=fn.loc(b))
             else:
                 r6.bad(key, '%s: a session is %s without expiry having been enforced first (no prune_expired before it): a session whose TTL has run out is still found and kept alive, and its token keeps authorising writes' % (short, 'looked up by token' if what == 'lookup' else 'refreshed'), loc=fn.loc(b))
+
+    # ------------------------------------------------------------------ R7 versions never restart
+    # the optimistic check compares version numbers only: a document that stops being tracked (deleted, renamed away,
+    # gone from disk, project switched) and is tracked again under the same path must not start at 1 again, or a writer
+    # holding a version of the old file passes the check against the new one
+    r7 = ctx.rule('C19.R7', 'document versions never restart: a newly tracked document takes its first version from the retired-version table, and every removal from the document table records the version there', floor=8, floor_what='document constructions / removals')
+    from ..dep import deps as _deps7
+    for k in sorted(fx.fns):
+        if not k.startswith(M) or '::tests::' in k:
+            continue
+        bodies = [k]
+        fn = F(fx.fns[k])
+        short = k[len(M):].split('::{closure')[0]
+        # (a) constructions
+        for b in fn.g:
+            for st in fn.bbs[b]['s']:
+                if st[0] == 'A' and st[2][0] == 'agg' and str(st[2][1]).endswith('IdeDocumentEntry') and len(st[2][2]) >= 2:
+                    r7.saw()
+                    vop = st[2][2][1]
+                    d = _deps7(fn, vop)
+                    from_table = any(c[1].endswith('IdeStateInner::first_version') for c in d.calls) or any(f.endswith('IdeStateInner.retired_versions') for f in d.fields)
+                    # inside a closure (`or_insert_with(|| IdeDocumentEntry { version: first_version, .. })`) the value is a capture
+                    if not from_table and '{closure' in k:
+                        parent = k.rsplit('::{closure', 1)[0]
+                        prec = fx.fns.get(parent)
+                        if prec is not None:
+                            pf = F(prec)
+                            for pb in pf.g:
+                                for pst in pf.bbs[pb]['s']:
+                                    if pst[0] == 'A' and pst[2][0] == 'agg' and pst[2][1] == 'closure:' + k:
+                                        for cap in pst[2][2]:
+                                            dc = _deps7(pf, cap)
+                                            if any(c[1].endswith('IdeStateInner::first_version') for c in dc.calls) or any(f.endswith('IdeStateInner.retired_versions') for f in dc.fields):
+                                                from_table = True
+                    key = 'first-version|%s' % short
+                    if from_table:
+                        r7.ok(key, loc=fn.loc(b))
+                    else:
+                        r7.bad(key, '%s starts tracking a document at a version that does not come from the retired-version table (a constant): after delete + create, rename-away + create or a project switch the numbering restarts, and a stale writer passes the expected_version check' % short, loc=fn.loc(b))
+        # (b) removals
+        for b, nm, t in fn.calls(lambda n: re.search(r'HashMap(::)?<.*>::(remove|remove_entry|clear|drain|retain|extract_if)$', n) is not None):
+            ga = ' '.join(t['f'].get('ga') or [])
+            if 'IdeDocumentEntry' not in ga and 'IdeDocumentEntry' not in nm:
+                continue
+            r7.saw()
+            key = 'retire|%s' % short
+            from ..cg import field_reads as _fr7, field_writes as _fw7
+            touches = 'IdeStateInner.retired_versions' in repr(_fr7(fx.fns[k])) or 'IdeStateInner.retired_versions' in repr(_fw7(fx.fns[k]))
+            if touches:
+                r7.ok(key, loc=fn.loc(b))
+            else:
+                r7.bad(key, '%s removes entries from the document table without recording their versions in the retired-version table' % short, loc=fn.loc(b))
